@@ -1,6 +1,7 @@
 package main
 
 import (
+	"sort"
 	"fmt"
 	"go/token"
 	"go/types"
@@ -11,7 +12,55 @@ import (
 )
 
 // verifyFunc generates the obligations of one function under contract.
+// aspectsOf: the aspect tags ("label@aspect") used by the clauses of a contract block. Clauses of
+// an aspect are proved in a pass of their own, in which only they and the untagged clauses are
+// present (the untagged ones as assumptions: they are proved in the default pass). This keeps the
+// queries of independent parts of a large contract apart.
+func aspectsOf(blk *Block) []string {
+	seen := map[string]bool{}
+	var out []string
+	add := func(name string) {
+		if i := strings.Index(name, "@"); i >= 0 {
+			for _, a := range strings.Split(name[i+1:], ",") {
+				if a != "" && !seen[a] {
+					seen[a] = true
+					out = append(out, a)
+				}
+			}
+		}
+	}
+	for _, cl := range blk.Clauses {
+		add(cl.Name)
+	}
+	for _, l := range blk.Loops {
+		for _, cl := range l.Invariants {
+			add(cl.Name)
+		}
+	}
+	sort.Strings(out)
+	return out
+}
+
+// clauseActive: is a clause with this label part of the current pass?
+func (fv *FuncVer) clauseActive(label string) bool {
+	i := strings.Index(label, "@")
+	if i < 0 {
+		return true
+	}
+	// "label@a,b": proved in pass a (the first one), assumed in passes a and b
+	for _, a := range strings.Split(label[i+1:], ",") {
+		if a == fv.aspect {
+			return true
+		}
+	}
+	return false
+}
+
 func (e *Engine) verifyFunc(blk *Block, prop string) (fv *FuncVer, err error) {
+	return e.verifyFuncAspect(blk, prop, "")
+}
+
+func (e *Engine) verifyFuncAspect(blk *Block, prop, aspect string) (fv *FuncVer, err error) {
 	fn := e.funcs[blk.Flags["resolved"]]
 	if fn == nil || fn.Blocks == nil {
 		return nil, fmt.Errorf("no body for %s", blk.Name)
@@ -25,6 +74,10 @@ func (e *Engine) verifyFunc(blk *Block, prop string) (fv *FuncVer, err error) {
 		}
 	}
 	_, fv.nopanic = blk.Flags["nopanic"]
+	fv.aspect = aspect
+	if aspect != "" {
+		fv.nopanic = false // safety obligations belong to the default pass
+	}
 	defer func() {
 		if r := recover(); r != nil {
 			switch x := r.(type) {
@@ -103,6 +156,9 @@ func (e *Engine) verifyFunc(blk *Block, prop string) (fv *FuncVer, err error) {
 }
 
 func (fv *FuncVer) addCover(st *State, anchor, text string) {
+	if fv.aspect != "" {
+		return
+	}
 	key := "cover:" + anchor
 	ob, ok := fv.obls[key]
 	if !ok {
@@ -148,6 +204,9 @@ func (fv *FuncVer) checkEnsures(st *State, res []Val) {
 		}
 		if strings.HasPrefix(label, "assumed:") {
 			continue // assumed at call sites, not proved here (listed in the evidence)
+		}
+		if !fv.clauseActive(label) || (fv.aspect != "" && !strings.Contains(label, "@")) {
+			continue
 		}
 		g := fv.evalBool(env, cl.Expr)
 		fv.oblige(st, "ensures["+label+"]", "", token.NoPos, g, "postcondition: "+cl.Text)
